@@ -83,7 +83,8 @@ type Env struct {
 	randHist []*big.Int       // every value Random has returned in this run
 	protect0 uint64
 	poisoned bool
-	schedIDs []int // scheduler task index -> task id of the current scheduled phase
+	schedIDs []int  // scheduler task index -> task id of the current scheduled phase
+	seen     []bool // yield sites reached (shared across the runs of a worker)
 	Va       *arena.Vars
 	useVa    bool // C15: the task's variables live in guarded pages
 }
@@ -1470,6 +1471,9 @@ type Result struct {
 // Exec executes a run. globals must have been captured at process start.
 func Exec(run *Run, ar *arena.Arena, va *arena.Vars, g *Globals, sites *SiteTable) (res Result) {
 	x := &Env{R: run, G: g, St: NewStats(), Sites: sites, Va: va}
+	if sites != nil {
+		x.seen = sites.Seen
+	}
 	res.Stats = x.St
 	debug.SetPanicOnFault(true)
 	defer func() {
@@ -1693,13 +1697,19 @@ func Exec(run *Run, ar *arena.Arena, va *arena.Vars, g *Globals, sites *SiteTabl
 	var soloSteps uint64
 	alone := func(ts *taskState, ops []Op) {
 		if !libGo {
-			secp.VerifSetYieldHook(func(uint32) { soloSteps++ })
+			secp.VerifSetYieldHook(func(site uint32) {
+				soloSteps++
+				if int(site) < len(x.seen) {
+					x.seen[site] = true
+				}
+			})
 			x.runTask(ts, ops)
 			secp.VerifSetYieldHook(nil)
 			return
 		}
 		ss := sched.New(sched.Spec{Policy: "serial"}, prng.New(1), 0, nil)
 		ss.MayBlock = true
+		ss.Seen = x.seen
 		x.Sch = ss
 		x.schedIDs = []int{ts.id}
 		secp.VerifSetYieldHook(ss.Hook)
@@ -1766,6 +1776,7 @@ func Exec(run *Run, ar *arena.Arena, va *arena.Vars, g *Globals, sites *SiteTabl
 	}
 	if sites != nil {
 		s.MayBlock = sites.MayBlock
+		s.Seen = x.seen
 	}
 	x.Sch = s
 	x.schedIDs = nil
